@@ -143,10 +143,12 @@ def values(budget, depth):
         return
     if budget == 1:
         yield ("T",)
-        yield ("G",)  # tensor that requires grad (e.g. an nn.Parameter held by a module)
+        yield ("G",)  # tensor that requires grad
+        yield ("P",)  # an nn.Parameter held by a module (a Tensor subclass: its detached / saved form is a plain Tensor)
         yield ("N",)  # non-contiguous tensor (a transposed view of a buffer)
         yield ("S",)
         yield ("E",)  # tensor-free sub-module that still has container attributes (tuple of strings, empty dict, int)
+        yield ("Q",)  # the library's own QuantizedTensor module (integer values + min / max tensors)
     for kind in ("D", "U", "L", "M"):
         if kind == "M" and depth >= 3:
             continue
@@ -178,6 +180,9 @@ def module_specs(nodes):
 
 def build_value(spec, torch, OptimizerModule, ctr, fill):
     k = spec[0]
+    if k == "P":
+        ctr[0] += 1
+        return torch.nn.Parameter(torch.full((2,), float(ctr[0]) if fill else 0.0))
     if k in ("T", "G", "N"):
         ctr[0] += 1
         if k == "N":
@@ -190,6 +195,18 @@ def build_value(spec, torch, OptimizerModule, ctr, fill):
     if k == "S":
         ctr[0] += 1
         return ctr[0] if fill else -1
+    if k == "Q":
+        from distributed_shampoo.utils.shampoo_block_info import BlockInfo
+        from distributed_shampoo.utils.shampoo_quantization import QuantizedTensor
+
+        ctr[0] += 1
+        q = QuantizedTensor(torch.zeros(2, dtype=torch.int8), BlockInfo(param=torch.zeros(1), composable_block_ids=(0, "block_0")))
+        if fill:
+            with torch.no_grad():
+                q.quantized_values.fill_(ctr[0] % 100)
+                q.min_value.fill_(float(ctr[0]))
+                q.max_value.add_(float(ctr[0]) + 0.5)
+        return q
     if k == "E":
         e = OptimizerModule()
         e.names, e.table, e.count = ("a", "b"), {}, 3
@@ -284,6 +301,11 @@ def check_module(spec, torch, OptimizerModule, via_checkpoint):
     ptrs = lambda d: sorted(t.data_ptr() for t in d.values())
     if ptrs(src_t) != ptrs(sd_t):
         msgs.append(f"state_dict() reaches {len(sd_t)} tensors, the module holds {len(src_t)}")
+    # keep_vars=True hands out the module's own tensor objects at every nesting level
+    kv_t = dict(walk_tensors(src.state_dict(keep_vars=True), OptimizerModule, torch))
+    if kv_t.keys() != src_t.keys() or any(kv_t[p] is not src_t[p] for p in src_t):
+        bad = [p for p in src_t if p not in kv_t or kv_t[p] is not src_t[p]]
+        msgs.append(f"state_dict(keep_vars=True) does not return the module's own tensor objects at {bad[:2]}")
     before = dict(walk_tensors(dst, OptimizerModule, torch))
     before_rg = {p: t.requires_grad for p, t in before.items()}
     aliases = list(before.values())
@@ -401,7 +423,7 @@ def run_unit(unit):
                 except Exception as e:
                     msgs = [f"raised {type(e).__name__}: {str(e)[:120]}"]
                 res["stats"]["module_graphs"] += 1
-                rec({"part": "mod", "spec": spec, "via_checkpoint": via}, msgs, repr(spec).count("'T'") + repr(spec).count("'G'") + repr(spec).count("'N'") >= 2, common.h64(repr(spec), via))
+                rec({"part": "mod", "spec": spec, "via_checkpoint": via}, msgs, repr(spec).count("'T'") + repr(spec).count("'G'") + repr(spec).count("'N'") + repr(spec).count("'P'") + repr(spec).count("'Q'") >= 2, common.h64(repr(spec), via))
             if len(res["violations"]) > 20:
                 break
         res["samples"].append({"module_spec": repr(specs[unit["ids"][len(unit["ids"]) // 2]])})
